@@ -131,6 +131,7 @@ func (b *backend) processEvents(cancel context.CancelFunc, out chan<- []*proto.E
 		if len(evs) > 0 {
 			out <- evs
 		}
+		verifhook.Yield("watch.processed", uint64(len(evs)), 0)
 	}
 	// channel closed by watcher hub due to slow process or ctx done
 	klog.InfoS("events chan closed", "chan", in, "prefix", prefix)
